@@ -4,6 +4,7 @@ secrets, log capture and leak scan.  See vlib/props/c20.py for the spec format."
 import copy
 import logging
 import os
+import shutil
 import sqlite3
 
 from vlib import core, store, ttlvref as T
@@ -911,7 +912,99 @@ def run_client(spec):
     return finish(case)
 
 
+def config_text(sections):
+    """INI text from [[section name, [[option, value], ...]], ...] (values written verbatim)."""
+    out = []
+    for name, opts in sections:
+        out.append("[%s]" % name)
+        for k, v in opts:
+            out.append("%s=%s" % (k, v))
+        out.append("")
+    return "\n".join(out)
+
+
+def run_client_config(spec):
+    """The client reads its settings - among them the password - from a configuration file.
+    spec: sections [[name, [[option, value-parts]]]] where a value is a list of parts, each plain
+    text or a '$t:password:<id>:<n>' canary; config = the section the client is pointed at;
+    api pie|proxy; then one call through a scripted socket (the credential travels in it)."""
+    import tempfile
+    cap = S.install()
+    cap.clear()
+    case = Case(spec.get("seed", 0))
+    client = None
+    d = tempfile.mkdtemp(prefix="c20-conf-")
+    try:
+        sections = []
+        for name, opts in spec["sections"]:
+            row = []
+            for k, parts in opts:
+                val = "".join(case.resolve(x) for x in parts)
+                if "\n" in val or "\r" in val:
+                    raise core.HarnessError("line break in a configuration value")
+                row.append([k, val])
+            sections.append([name, row])
+        path = os.path.join(d, "pykmip.conf")
+        with open(path, "w", encoding="utf-8") as fh:
+            fh.write(config_text(sections))
+        from kmip.pie.client import ProxyKmipClient
+        from kmip.services.kmip_client import KMIPProxy
+        from kmip.services.kmip_protocol import KMIPProtocol
+        api = spec.get("api", "pie")
+        outcome = "constructed"
+        proxy = None
+        try:
+            if api == "pie":
+                client = ProxyKmipClient(config=spec.get("config", "client"), config_file=path)
+                proxy = client.proxy
+            else:
+                proxy = KMIPProxy(config=spec.get("config", "client"), config_file=path)
+        except Exception as e:
+            outcome = "constructor:" + type(e).__name__
+        case.classes.append("config:" + outcome)
+        if proxy is not None and spec.get("call", True):
+            def responder(data):
+                case.frames.append(("request", bytes(data)))
+                v = tuple(spec.get("v", (1, 2)))
+                from vlib import c19_wire as W
+                return W.build_response(v, 10, W.STATUS_FAILED, reason=1,
+                                        message="Could not locate object: 1")
+            sock = FakeSocket(responder)
+            proxy.socket = sock
+            proxy.protocol = KMIPProtocol(sock)
+            try:
+                if client is not None:
+                    client._is_open = True
+                    client.get("1")
+                else:
+                    proxy.get("1")
+                case.classes.append("config-call:returned")
+            except core.HarnessError:
+                raise
+            except Exception as e:
+                case.classes.append("config-call:" + type(e).__name__)
+            if case.reg.items and any(case.reg.contains(f[1]) for f in case.frames):
+                case.classes.append("config:password-travelled-in-request")
+        case.nt_failures += 1 if case.reg.items else 0
+        case.kinds_in_flight.update(case.reg.kinds())
+        case.judge(list(cap.entries), [])
+    finally:
+        try:
+            if client is not None:
+                client.proxy.socket = None
+                client._is_open = False
+            elif proxy is not None:
+                proxy.socket = None
+        except Exception:
+            pass
+        shutil.rmtree(d, ignore_errors=True)
+        cap.clear()
+    return finish(case)
+
+
 def run_case(spec):
     if spec.get("mode") == "client":
         return run_client(spec)
+    if spec.get("mode") == "client-config":
+        return run_client_config(spec)
     return run_server(spec)
